@@ -47,6 +47,25 @@ theorem filter_strip (p : String → Bool) (a b : Compute.Fields) (h : strip a =
       · simp only [strip_cons, h1, h2, ih ys h3]
       · exact ih ys h3
 
+theorem takeWhile_strip (p : String → Bool) (a b : Compute.Fields) (h : strip a = strip b) :
+    strip (a.takeWhile (fun f => p f.1)) = strip (b.takeWhile (fun f => p f.1)) ∧
+    strip (a.dropWhile (fun f => p f.1)) = strip (b.dropWhile (fun f => p f.1)) := by
+  induction a generalizing b with
+  | nil =>
+    cases b with
+    | nil => exact ⟨rfl, rfl⟩
+    | cons y ys => simp [strip] at h
+  | cons x xs ih =>
+    cases b with
+    | nil => simp [strip] at h
+    | cons y ys =>
+      simp only [strip_cons, List.cons.injEq, Prod.mk.injEq] at h
+      obtain ⟨⟨h1, h2⟩, h3⟩ := h
+      simp only [List.takeWhile_cons, List.dropWhile_cons, h1]
+      split
+      · exact ⟨by simp only [strip_cons, h1, h2, (ih ys h3).1], (ih ys h3).2⟩
+      · exact ⟨rfl, by simp only [strip_cons, h1, h2, h3]⟩
+
 /-! ### `CoAPParser.unparse` only looks at ids, lengths and bits -/
 
 theorem encodeOption_strip (d : Nat) (v w : ABuf) (h : v.bits = w.bits) :
@@ -161,10 +180,6 @@ theorem map_strip_cases {x y : Py Compute.Fields} (h : x.map strip = y.map strip
 
 /-! ### `PacketParser.unparse` -/
 
-theorem filter_strip_not (p : String → Bool) (a b : Compute.Fields) (h : strip a = strip b) :
-    strip (a.filter (fun f => !p f.1)) = strip (b.filter (fun f => !p f.1)) :=
-  filter_strip (fun i => !p i) a b h
-
 theorem unparseClaimed_strip (a b : Compute.Fields) (h : strip a = strip b) (pns : List (ParserInst × String)) :
     (unparseClaimed a pns).map (fun x => (strip x.1, strip x.2)) = (unparseClaimed b pns).map (fun x => (strip x.1, strip x.2)) := by
   induction pns generalizing a b with
@@ -172,20 +187,20 @@ theorem unparseClaimed_strip (a b : Compute.Fields) (h : strip a = strip b) (pns
   | cons pn rest ih =>
     obtain ⟨p, n⟩ := pn
     unfold unparseClaimed
-    have h1 := headerUnparse_strip p _ _ (filter_strip (fun i => strContains i n) a b h)
-    have h2 := ih _ _ (filter_strip_not (fun i => strContains i n) a b h)
+    have h1 := headerUnparse_strip p _ _ (takeWhile_strip (fun i => strContains i n) a b h).1
+    have h2 := ih _ _ (takeWhile_strip (fun i => strContains i n) a b h).2
     rcases map_strip_cases h1 with ⟨e, e1, e2⟩ | ⟨r, r', e1, e2, e3⟩
     · simp only [bind, Except.bind, e1, e2]
     · simp only [bind, Except.bind, e1, e2]
-      cases hx : unparseClaimed (List.filter (fun f => !strContains f.1 n) a) rest with
+      cases hx : unparseClaimed (List.dropWhile (fun f => strContains f.1 n) a) rest with
       | error e =>
         rw [hx] at h2
-        cases hy : unparseClaimed (List.filter (fun f => !strContains f.1 n) b) rest with
+        cases hy : unparseClaimed (List.dropWhile (fun f => strContains f.1 n) b) rest with
         | error e' => rw [hy] at h2; simp only [Except.map, Except.error.injEq] at h2; subst h2; rfl
         | ok y => rw [hy] at h2; simp [Except.map] at h2
       | ok x =>
         rw [hx] at h2
-        cases hy : unparseClaimed (List.filter (fun f => !strContains f.1 n) b) rest with
+        cases hy : unparseClaimed (List.dropWhile (fun f => strContains f.1 n) b) rest with
         | error e' => rw [hy] at h2; simp [Except.map] at h2
         | ok y =>
           rw [hy] at h2
@@ -226,11 +241,11 @@ def unparseSegs : List (ParserInst × Compute.Fields) → Py Compute.Fields
 
 def SegsOf : Compute.Fields → List (ParserInst × String × Compute.Fields) → Prop
   | _, [] => True
-  | rem, t :: rest => rem.filter (fun f => strContains f.1 t.2.1) = t.2.2 ∧ SegsOf (rem.filter (fun f => !strContains f.1 t.2.1)) rest
+  | rem, t :: rest => rem.takeWhile (fun f => strContains f.1 t.2.1) = t.2.2 ∧ SegsOf (rem.dropWhile (fun f => strContains f.1 t.2.1)) rest
 
 def leftOver : Compute.Fields → List (ParserInst × String × Compute.Fields) → Compute.Fields
   | rem, [] => rem
-  | rem, t :: rest => leftOver (rem.filter (fun f => !strContains f.1 t.2.1)) rest
+  | rem, t :: rest => leftOver (rem.dropWhile (fun f => strContains f.1 t.2.1)) rest
 
 theorem unparseClaimed_segments (fs : Compute.Fields) (ts : List (ParserInst × String × Compute.Fields)) (h : SegsOf fs ts) :
     unparseClaimed fs (ts.map fun t => (t.1, t.2.1)) = (unparseSegs (ts.map fun t => (t.1, t.2.2))).map (fun out => (out, leftOver fs ts)) := by
@@ -260,42 +275,26 @@ theorem headerUnparse_plain (p : ParserInst) (h : PlainUnparse p) (fs : Compute.
   · have : (p.cls == "CoAPParser") = false := by simpa using hc
     simp [this, pure, Except.pure]
 
-theorem unparseClaimed_plain_perm (rem : Compute.Fields) (pns : List (ParserInst × String)) (h : ∀ pn ∈ pns, PlainUnparse pn.1) :
-    ∃ out left, unparseClaimed rem pns = .ok (out, left) ∧ (out ++ left).Perm rem := by
+theorem unparseClaimed_plain (rem : Compute.Fields) (pns : List (ParserInst × String)) (h : ∀ pn ∈ pns, PlainUnparse pn.1) :
+    ∃ out left, unparseClaimed rem pns = .ok (out, left) ∧ out ++ left = rem := by
   induction pns generalizing rem with
   | nil => exact ⟨[], rem, rfl, by simp⟩
   | cons pn rest ih =>
     obtain ⟨p, n⟩ := pn
-    obtain ⟨out, left, h1, h2⟩ := ih (rem.filter (fun f => !strContains f.1 n)) (fun x hx => h x (List.mem_cons_of_mem _ hx))
-    refine ⟨rem.filter (fun f => strContains f.1 n) ++ out, left, ?_, ?_⟩
+    obtain ⟨out, left, h1, h2⟩ := ih (rem.dropWhile (fun f => strContains f.1 n)) (fun x hx => h x (List.mem_cons_of_mem _ hx))
+    refine ⟨rem.takeWhile (fun f => strContains f.1 n) ++ out, left, ?_, ?_⟩
     · unfold unparseClaimed
       simp only [headerUnparse_plain p (h (p, n) (by simp)), h1, bind, Except.bind, pure, Except.pure]
-    · rw [List.append_assoc]
-      exact (List.Perm.append_left _ h2).trans (List.filter_append_perm _ rem)
+    · rw [List.append_assoc, h2, List.takeWhile_append_dropWhile]
 
-/-- for every stack whose parsers all have the plain `unparse` — whatever its shape: a header class listed twice
-    (tunnels), next-header prediction, fields in any order — `PacketParser.unparse` returns each field exactly once -/
-theorem packetUnparse_plain_perm (ps : List ParserInst) (names : List String) (hn : ps.mapM parserNameOf = .ok names)
-    (h : ∀ p ∈ ps, PlainUnparse p) (fs : Compute.Fields) :
-    ∃ out, packetUnparse ps fs = .ok out ∧ out.Perm fs := by
-  obtain ⟨out, left, h1, h2⟩ := unparseClaimed_plain_perm fs (ps.zip names) (fun pn hpn => h pn.1 (List.of_mem_zip hpn).1)
-  refine ⟨out ++ left, ?_, h2⟩
+/-- for every stack whose parsers all have the plain `unparse` — whatever its shape: a header class listed twice or
+    again after another header (tunnels), next-header prediction, fields in any order — `PacketParser.unparse` is the
+    identity: every field once, in the order given -/
+theorem packetUnparse_plain (ps : List ParserInst) (names : List String) (hn : ps.mapM parserNameOf = .ok names)
+    (h : ∀ p ∈ ps, PlainUnparse p) (fs : Compute.Fields) : packetUnparse ps fs = .ok fs := by
+  obtain ⟨out, left, h1, h2⟩ := unparseClaimed_plain fs (ps.zip names) (fun pn hpn => h pn.1 (List.of_mem_zip hpn).1)
   unfold packetUnparse
-  simp only [hn, h1, bind, Except.bind, pure, Except.pure]
-
-/-- a one-parser stack (what `factory("IPv6")` etc. build, with next-header prediction): fields that start with the
-    parser's own header followed by fields of other headers and the payload come back unchanged, in order -/
-theorem packetUnparse_single_plain (p : ParserInst) (n : String) (hn : parserNameOf p = .ok n) (h : PlainUnparse p)
-    (A B : Compute.Fields) (hA : ∀ x ∈ A, strContains x.1 n = true) (hB : ∀ x ∈ B, strContains x.1 n = false) :
-    packetUnparse [p] (A ++ B) = .ok (A ++ B) := by
-  unfold packetUnparse
-  simp only [List.mapM_cons, List.mapM_nil, hn, bind, Except.bind, pure, Except.pure, List.zip_cons_cons, List.zip_nil_right, unparseClaimed]
-  have f1 : (A ++ B).filter (fun f => strContains f.1 n) = A := by
-    rw [List.filter_append, List.filter_eq_self.mpr hA, List.filter_eq_nil_iff.mpr (fun x hx => by simp [hB x hx])]; simp
-  have f2 : (A ++ B).filter (fun f => !strContains f.1 n) = B := by
-    rw [List.filter_append, List.filter_eq_nil_iff.mpr (fun x hx => by simp [hA x hx]), List.filter_eq_self.mpr (fun x hx => by simp [hB x hx])]; simp
-  rw [f1, f2, headerUnparse_plain p h]
-  simp
+  simp only [hn, h1, bind, Except.bind, pure, Except.pure, h2]
 
 /-! ### `decompress(…, unparser=…)` for rules without compute fields -/
 
